@@ -13,15 +13,15 @@ VERIF = os.path.dirname(os.path.dirname(os.path.abspath(__file__)))
 REPO = os.environ.get('VERIF_REPO', '/repo')
 
 SWEEPS = {
-    'C01': [['stream', '2']],
-    'C02': [['stream', '1']],
-    'C04': [['events', '1']],
+    'C01': [['stream', '2'], ['longrun', 'stream2', '@SEED', '3000000']],
+    'C02': [['stream', '1'], ['longrun', 'stream1', '@SEED', '3000000']],
+    'C04': [['events', '1'], ['longrun', '1', '@SEED', '3000000']],
     'C05': [['words']],
-    'C06': [['bits']],
+    'C06': [['bits'], ['longrun', 'bits', '@SEED', '5000000']],
     'C07': [['resync', '2'], ['resync', '1']],
-    'C08': [['words'], ['bits'], ['events', '3'], ['total'], ['soak'], ['keyboard', '2'], ['keyboard', '1'], ['stream', '2'], ['stream', '1']],
-    'C14': [['events', '2']],
-    'C18': [['keyboard', '2'], ['keyboard', '1'], ['bits']],
+    'C08': [['words'], ['bits'], ['events', '3'], ['total'], ['soak'], ['longrun', 'bits', '@SEED', '5000000'], ['longrun', '3', '@SEED', '3000000'], ['keyboard', '2'], ['keyboard', '1'], ['stream', '2'], ['stream', '1']],
+    'C14': [['events', '2'], ['longrun', '2', '@SEED', '3000000']],
+    'C18': [['keyboard', '2'], ['keyboard', '1'], ['bits'], ['fuzz', '2', '@SEED', '5000000'], ['fuzz', '1', '@SEED', '5000000']],
     'C19': [['pairing', '2'], ['pairing', '1']],
 }
 CELL_PROPS = ('C01', 'C02', 'C03', 'C09', 'C10', 'C11', 'C12', 'C13', 'C15', 'C16', 'C17', 'C19')
@@ -35,6 +35,15 @@ def sweep(binpath, args, timeout=900):
 def hit_from_sweep(prop, binpath, args, line):
     # line: FAILS kanicex <scenario> <values...>   |   FAILS soak PANIC: <message>
     parts = line.split()
+    if parts[1] == 'longrun':
+        return {
+            'obligation': 'standin/sweep-longrun-%s' % args[1],
+            'text': 'long pseudo-random history of the real code compared step by step with the executable specification',
+            'extra': {
+                'counterexample': {'found_by': 'native sweep `replayer sweep %s`' % ' '.join(args), 'description': line, 'scenario': 'longrun', 'values': args[1:]},
+                'native_replay': {'cmd': ['sweep'] + args, 'output': line, 'reproduced': True},
+            },
+        }
     if parts[1] == 'fuzz':
         return {
             'obligation': 'standin/sweep-fuzz',
@@ -94,7 +103,7 @@ def run(prop, tier, known=()):
     hits = []
     ran = []
     seed = os.environ.get('VERIF_SEED', '0') or '0'
-    sweeps = list(SWEEPS.get(prop, []))
+    sweeps = [[a.replace('@SEED', seed) for a in x] for x in SWEEPS.get(prop, [])]
     if tier == 'thorough':
         sweeps += [[a.replace('@SEED', seed) for a in x] for x in THOROUGH_EXTRA.get(prop, [])]
     for args in sweeps:
